@@ -1,8 +1,11 @@
 /-
   C14 — Stop tag: once set, no further rule starts.
 -/
-import GV.Orch.AllConform
-import GV.Props.C04
+import GV.Orch.Conf.ExecuteWithStopTagDirect
+import GV.Orch.Conf.ExecuteMixModelWithStopTagDirect
+import GV.Orch.Conf.ExecuteSelectedRulesWithControlAndStopTag
+import GV.Orch.Conf.ExecuteSelectedRulesWithControlAndStopTagAsGivenSortedName
+import GV.Props.C04Lemmas
 namespace GV.Props.C14
 open GV.Orch GV.Generated.Orch
 
